@@ -238,6 +238,7 @@ class Plan:
         for l in self.locals:
             out.append(f"pub struct {l};")
         out.append("pub struct W1<T: ?Sized>(PhantomData<T>); pub struct W2<T: ?Sized, U: ?Sized>(PhantomData<T>, PhantomData<U>);")
+        out.append("pub trait PlainD<X: ?Sized> {}")
         out.append("pub trait Plain0 {} pub trait Plain1 {} impl Plain0 for u8 {} impl Plain0 for u16 {} impl Plain0 for String {} impl<A: Plain0, B: Plain0> Plain0 for (A, B) {}")
         if self.inherent_ty:
             out.append(self.inherent_ty)
@@ -621,6 +622,13 @@ class PlanGen:
             m.inline = {ki: r.random() < 0.6 for ki in range(len(keys))}
             if extra_bounds and r.random() < 0.3:
                 m.extra.append((("tp", r.randrange(nparams)), self.pick(["Plain0", "Plain1"])))
+            simple = [d_ for d_ in plan.dtraits if not (d_.arity or d_.lifetimes or d_.consts or d_.unsized_assoc)]
+            if extra_bounds and simple and r.random() < 0.18:
+                # a non-dispatch bound whose ARGUMENT mentions a dispatch trait with bindings (`T: PlainD<dyn D0<G = GB>>`):
+                # the nested bound constrains the trait object, not T
+                d_ = self.pick(simple)
+                obj = "dyn " + d_.name + "<" + ", ".join(f"{a_} = {self.pick(MARKERS)}" for a_ in d_.assocs) + ">"
+                m.extra.append((("tp", r.randrange(nparams)), f"PlainD<{obj}>"))
             has_dflt = [n for _, n, d in plan.items if d]
             m.overrides = {n for n in has_dflt if r.random() < 0.5}
             members.append(m)
@@ -753,9 +761,57 @@ class PlanGen:
         self.finish_world(plan)
 
     # ------------------------------------------------------------------ overlapping pairs (C04)
+    def shifted_overlap(self):
+        """C04: family (T0, T1, T2) dispatching on one position, plus a nested block whose header fixes that position to a
+        concrete type and that bounds ANOTHER position: its canonical parameter numbers are shifted against the family's
+        (and parameters before the fixed position keep theirs). A type whose fixed element satisfies the family's key and whose
+        other element satisfies the nested block's bound satisfies both blocks."""
+        r = self.r
+        plan = Plan()
+        plan.dtraits = [DTrait("D0")] + ([DTrait("D1", assocs=("G", "H"))] if r.random() < 0.3 else [])
+        plan.items = [("const", "NAME", False)] + ([("fn", "tag", False)] if r.random() < 0.5 else [])
+        tps = [("tp", 0), ("tp", 1), ("tp", 2)]
+        hdr = self.pick([("tuple", tps), ("ctor", "W2", [("aty", tps[0]), ("aty", ("tuple", tps[1:]))]),
+                         ("tuple", [tps[0], ("ctor", "W2", [("aty", tps[1]), ("aty", tps[2])])])])
+        pa, pb = self.pick([(1, 2), (1, 2), (0, 1), (0, 2), (1, 0), (2, 0)])
+        dt = r.randrange(len(plan.dtraits))
+        assoc = self.pick(plan.dtraits[dt].assocs)
+        ma, mb = r.sample(MARKERS, 2)
+        a = Member({}, [leaf(ma)], 3)
+        a.names = self.names(3)
+        a.inline = {0: r.random() < 0.5}
+        g = self.local(plan)
+        b = Member({pa: ("ty", leaf(g))}, [leaf(mb)], 3)
+        b.names = self.names(3)
+        b.custom_bounds = [(("tp", pb), dt, [], assoc, leaf(mb))]
+        b.overrides = set()
+        members = [a, b]
+        extra = None
+        if r.random() < 0.5:
+            # a third, legitimately disjoint block of the general header
+            mc = self.pick([x for x in MARKERS if x not in (ma, mb)])
+            extra = Member({}, [leaf(mc)], 3)
+            extra.names = self.names(3)
+            members.append(extra)
+        r.shuffle(members)
+        f = Family(hdr, [], 3, [Key(("tp", pa), dt, [], assoc)], members)
+        plan.families = [f]
+        plan.world, plan.plain, plan.probes = [], [], []
+        plan.notes["keep_plain"] = True
+        q = self.witness(plan, 0, members.index(b))
+        self.add_world(plan, dt, [], g, assoc, ma)
+        plan.probes.append(q)
+        plan.probes.append(self.witness(plan, 0, members.index(a)))
+        plan.probes.append((self.local(plan), self.default_targs(plan)))
+        self.finish_world(plan)
+        plan.notes["overlap_mode"] = "nested-shifted-key"
+        return plan, "nested-shifted-key"
+
     def overlap(self, mode=None):
         """a plan in which two blocks have a common instance by construction; returns (plan, mode)"""
         r = self.r
+        if mode is None and r.random() < 0.12:
+            return self.shifted_overlap()
         for _ in range(50):
             plan = self.basic(nfam=self.pick([1, 1, 2]), nested=False, wildcard=False)
             fams = [f for f in plan.families if f.members]
@@ -1130,7 +1186,10 @@ class PlanGen:
         plan.dtraits = [DTrait("D0"), DTrait("D1", assocs=("G", "H"))][: self.pick([1, 2])]
         plan.items = [("const", "NAME", False)] + ([("fn", "tag", False)] if r.random() < 0.5 else [])
         shapes = [(1, ("tp", 0)), (1, ("ctor", "Box", [("aty", ("tp", 0))])), (1, ("ref", None, False, ("tp", 0))),
-                  (1, ("ctor", "W1", [("aty", ("tp", 0))])), (2, ("ctor", "W2", [("aty", ("tp", 0)), ("aty", ("tp", 1))]))]
+                  (1, ("ctor", "W1", [("aty", ("tp", 0))])), (2, ("ctor", "W2", [("aty", ("tp", 0)), ("aty", ("tp", 1))])),
+                  (2, ("tuple", [("ctor", "Box", [("aty", ("tp", 0))]), ("tp", 1)])),
+                  (2, ("tuple", [("ref", None, False, ("tp", 0)), ("ctor", "Box", [("aty", ("tp", 1))])])),
+                  (2, ("ctor", "W2", [("aty", ("ctor", "Box", [("aty", ("tp", 0))])), ("aty", ("tp", 1))]))]
         nparams, self_ty = self.pick(shapes)
         targs = []
         if r.random() < 0.3:
@@ -1145,7 +1204,7 @@ class PlanGen:
             if use_d7 and self_ty[0] == "ctor" and self_ty[1] == "Box" and p == 0:
                 bounded = self_ty          # D7 shape: the key bounds Box<T>, T itself is only relaxed
             keys.append(Key(bounded, dt, [], self.pick(plan.dtraits[dt].assocs)))
-            if r.random() < 0.4:
+            if r.random() < 0.25:
                 break
         members, rows = [], []
         tries = 0
@@ -1153,8 +1212,8 @@ class PlanGen:
         while len(members) < want and tries < 30:
             tries += 1
             row = [leaf(self.pick(MARKERS)) for _ in keys]
-            if len(keys) > 1 and members and r.random() < 0.35:
-                row[r.randrange(1, len(keys))] = None      # wildcard: bound without binding
+            if len(keys) > 1 and r.random() < 0.4:
+                row[r.randrange(len(keys))] = None      # wildcard: bound without binding (any key, any member incl. the first)
             if any(_rows_unify(row, o) for o in rows):
                 continue
             rows.append(row)
@@ -1167,6 +1226,23 @@ class PlanGen:
         if not any(m.unsized for m in members):
             members[0].unsized = {0}
         r.shuffle(members)
+        if len(keys) >= 2 and all(k.bounded[0] == "tp" for k in keys) and r.random() < 0.45:
+            # directed shape: the FIRST block relaxes the parameter of a key it only names (wildcard), the later blocks bind
+            # that key and do not relax it; the other column keeps the rows apart
+            j = r.randrange(len(keys))
+            o = (j + 1) % len(keys)
+            marks = r.sample(MARKERS, min(len(MARKERS), len(members)))
+            if len(marks) == len(members):
+                for mi, m in enumerate(members):
+                    m.row[o] = leaf(marks[mi])
+                    if mi == 0:
+                        m.row[j] = None
+                        m.unsized = set(m.unsized) | {keys[j].bounded[1]}
+                    else:
+                        if m.row[j] is None:
+                            m.row[j] = leaf(self.pick(MARKERS))
+                        m.unsized = set(m.unsized) - {keys[j].bounded[1]}
+                plan.notes["directed"] = "first block relaxes a wildcard key"
         plan.families = [Family(self_ty, targs, nparams, keys, members)]
         plan.world, plan.plain, plan.probes = [], [], []
         for mi, m in enumerate(members):
